@@ -89,6 +89,10 @@ func Addr6(t *rapid.T, label string) netip.Addr {
 
 func PexPeers(t *rapid.T, label string, max int, flags bool) []ref.PexPeer {
 	n := rapid.IntRange(0, max).Draw(t, label+".n")
+	if rapid.IntRange(0, 9).Draw(t, label+".many") == 0 {
+		// around the most a message may carry (50 per list), and beyond
+		n = rapid.SampledFrom([]int{49, 50, 51, 120}).Draw(t, label+".nmany")
+	}
 	var out []ref.PexPeer
 	for i := 0; i < n; i++ {
 		var a netip.Addr
